@@ -22,6 +22,7 @@ const MAX_GLOBAL_NAMES: usize = 65_535;
 const MAX_STRING_LEN: usize = 1_000_000;
 const MAX_NESTING_DEPTH: usize = 64;
 const MAX_SECTION_LEN: usize = 256 * 1024 * 1024;
+const MAX_POINTER_PAYLOAD: u64 = (1 << 48) - 1; // what a NaN-boxed pointer can hold
 
 const SECTION_MANIFEST: u32 = u32::from_le_bytes(*b"MANF");
 const SECTION_BUNDLES: u32 = u32::from_le_bytes(*b"NBND");
@@ -60,6 +61,9 @@ pub enum BinaryError {
 
     #[error("Unexpected end of file")]
     UnexpectedEof,
+
+    #[error("Invalid pointer constant: {0:#x}")]
+    InvalidPointer(u64),
 
     #[error("Limit exceeded: {what} (max {limit})")]
     LimitExceeded { what: &'static str, limit: usize },
@@ -581,7 +585,11 @@ impl<'a> BinaryReader<'a> {
             }
             6 => {
                 // TAG_PTR
-                let ptr = self.read_u64()? as usize;
+                let raw = self.read_u64()?;
+                if raw > MAX_POINTER_PAYLOAD {
+                    return Err(BinaryError::InvalidPointer(raw));
+                }
+                let ptr = raw as usize;
                 Ok(Value::ptr(ptr))
             }
             _ => Err(BinaryError::InvalidConstantType(tag)),
